@@ -194,7 +194,7 @@ func (table *Table) DispatchAggregate(buf []byte) {
 
 	// routes filter on the metric name only, like for regular metrics
 	name := buf
-	if pos := bytes.IndexByte(buf, ' '); pos > 0 {
+	if pos := bytes.IndexByte(buf, ' '); pos >= 0 {
 		name = buf[:pos]
 	}
 
